@@ -112,7 +112,9 @@ def monitor(am, engine, cx, events, snaps):
     owners = {inv.iid: n.idx for n in am.nodes for inv in n.invoke}
     active = set()
     must_fail = None
-    for o in log:
+    for i_, o in enumerate(log):
+        if o[0] == "begin" and i_ + 1 < len(log) and log[i_ + 1][0] == "clock":
+            now = log[i_ + 1][1]        # the clock stamp of an event follows its `begin` record
         if o[0] == "clock":
             now = o[1]
         elif o[0] == "enter":
@@ -132,6 +134,16 @@ def monitor(am, engine, cx, events, snaps):
                 out.append(("service %s started %d times in one activation of its state" % (o[1], starts[key]), None))
         elif o[0] == "begin":
             entered_before, act_before = dict(entered_at), dict(act_no)
+            # the failure of a service whose (only active) invoke declares no onError is being delivered: the machine must
+            # end up in the error status
+            if isinstance(o[1], str) and o[1].startswith("error.platform."):
+                iid = o[1][len("error.platform."):]
+                cands = [(n.idx, inv) for n in am.nodes for inv in n.invoke if inv.iid == iid and n.idx in active and inv.src]
+                if len(cands) == 1 and not cands[0][1].ok and not cands[0][1].onerror and not cands[0][1].machine and must_fail is None \
+                        and entered_at.get(cands[0][0]) is not None and now - entered_at[cands[0][0]] >= cands[0][1].dur:
+                    # (the active invoke's OWN failure is due: whichever activation this event stems from - see F9 - the
+                    #  failure of the active one has happened and nobody handles it)
+                    must_fail = (cands[0][0], iid)
         elif o[0] == "trans" and o[1] in inv_of:
             owner, inv = inv_of[o[1]]
             key = (owner, inv.iid, act_before.get(owner, 0))
